@@ -18,3 +18,15 @@ package content
 //@   requires nn:      r.r != nil
 //@   modifies mem[uint8], world.rdN, world.ucErr
 //@   ensures  through: result0 == world.rdN && result1 == world.ucErr
+
+// Get and Delete report a missing content file as ErrNotFound (that is how a deleted or collected version
+// reads), anything else as a wrapped error; Delete removes at most the named file.
+//@ func (*Repo).Get
+//@   ensures  missing: !world.hasBlob[path] ==> result1 == fs_db.ErrNotFound
+//@   ensures  found:   result1 == nil ==> world.hasBlob[path]
+//@   ensures  present: world.hasBlob[path] ==> result1 != fs_db.ErrNotFound
+//@ func (*Repo).Delete
+//@   modifies world.hasBlob
+//@   ensures  missing: !old(world.hasBlob[path]) ==> result == fs_db.ErrNotFound
+//@   ensures  gone:    (result == nil || result == fs_db.ErrNotFound) ==> !world.hasBlob[path]
+//@   ensures  others:  forall p string :: p != path ==> world.hasBlob[p] == old(world.hasBlob[p])
